@@ -49,24 +49,41 @@ def check(an, rep, tier):
     fn = prog.func('cross.cross')
     mod = fn.module
     # --- P-fresh-info at the end of the sweep
+    # the result tensor = the plain name returned by the function; the
+    # reference copy = the name bound to copy(<result>) at the head of the sweep
+    rets_ = [n.value.id for n in ast.walk(fn.node)
+             if isinstance(n, ast.Return) and isinstance(n.value, ast.Name)]
+    res_name = max(set(rets_), key=rets_.count) if rets_ else None
+    old_name = None
+    if wl is not None:
+        for st in wl.body:
+            if isinstance(st, ast.Assign) and \
+                    isinstance(st.targets[0], ast.Name) and \
+                    isinstance(st.value, ast.Call) and \
+                    (prog.dotted(st.value.func) or '').endswith('copy') and \
+                    st.value.args and \
+                    isinstance(st.value.args[0], ast.Name) and \
+                    st.value.args[0].id == res_name:
+                old_name = st.targets[0].id
     if wl is not None:
         last_store = None
         keys = {}
         for i, st in enumerate(wl.body):
             for t, v in paths.stores_in(st):
                 if isinstance(t, ast.Subscript) and \
-                        isinstance(t.value, ast.Name) and t.value.id == 'Y':
+                        isinstance(t.value, ast.Name) and \
+                        t.value.id == res_name:
                     last_store = i
                 sk = paths.subscript_key(t)
                 if sk and sk[0] == 'info' and sk[1] in ('r', 'e', 'e_vld'):
-                    uses_y = any(isinstance(x, ast.Name) and x.id == 'Y'
+                    uses_y = any(isinstance(x, ast.Name) and x.id == res_name
                                  for x in ast.walk(v))
                     keys[sk[1]] = (i, uses_y, v)
         ok = last_store is not None and set(keys) == {'r', 'e', 'e_vld'} and \
             all(i > last_store and u for i, u, _ in keys.values())
         e_expr = keys.get('e', (0, 0, None))[2]
         yold_ok = e_expr is not None and any(
-            isinstance(x, ast.Name) and x.id == 'Yold'
+            isinstance(x, ast.Name) and x.id == old_name and old_name
             for x in ast.walk(e_expr))
         rep.add('P-fresh-info', 'cross.cross', 'end of sweep: info r / e / '
                 'e_vld from the final Y', 'ok' if ok and yold_ok else
